@@ -39,9 +39,12 @@ def _wrap(c):
     A = Affine(*[float(v) for v in c["base"]["A"]])
     crs = "epsg:4326" if c["base"]["name"] == "nonsquare_geo" else CRS_A
     if c["base"]["carrier"] == "gcp":
+        # control points live in a base pixel plane; the box is the view V of it (identity, cropped, zoomed): same registration A = base o V
+        V = {"gcp_view_cropped": Affine.translation(3, 2), "gcp_view_zoomed": Affine.translation(1, 2) * Affine.scale(0.5, 2)}.get(c["base"]["name"], Affine.identity())
+        base = A * ~V
         pix = np.array([[0, 0], [8, 0], [8, 6], [0, 6], [3, 2], [5, 5], [2, 4]], dtype="float64")
-        wld = np.array([A * tuple(p) for p in pix])
-        gbox = GCPGeoBox((h, w), GCPMapping(pix, wld, crs))
+        wld = np.array([base * tuple(p) for p in pix])
+        gbox = GCPGeoBox((h, w), GCPMapping(pix, wld, crs), V)
     else:
         gbox = GeoBox((h, w), A, crs)
     dims = c["cont"]["dims"]
@@ -148,8 +151,16 @@ def run_repr(c):
             dst = GeoBox.from_bbox(src.footprint(dcrs).boundingbox, dcrs, shape=(9, 11))
             out = obj.odc.reproject(dst)
         else:
-            out = obj.odc.reproject(dcrs)
-            dst = obj.odc.output_geobox(dcrs)
+            # a CRS, possibly with grid options: they must reach the output-grid computation (same answer as .odc.output_geobox with them)
+            from odc.geo.crs import CRS as _C
+            opts = {}
+            if c["how"] == "crs+resolution":
+                opts = {"resolution": 0.03 if _C(dcrs).geographic else 3000.0}      # a few dozen pixels across
+            elif c["how"] == "crs+tight_anchor":
+                opts = {"tight": True, "resolution": "fit"} if c["dst"] in ("4326", "3035") else {"anchor": "center", "tol": 0.1}
+            out = obj.odc.reproject(dcrs, **opts)
+            ref = obj["a"] if not isinstance(obj, xr.DataArray) else obj
+            dst = ref.odc.output_geobox(dcrs, **opts)
         # what users do next: arithmetic / astype drop xarray's encoding, recovery then relies on the coordinates alone
         if c.get("post") == "arith":
             out = out * 1 + 0
@@ -194,6 +205,8 @@ def _tags(c):
     if c["sx"]["n"] == 1 or c["sy"]["n"] == 1:
         t.add("single_row_or_column")
     t.add("carrier:" + c["base"]["carrier"])
+    if c["base"]["name"].startswith("gcp_view"):
+        t.add("gcp_box_is_a_view_with_non_identity_pixel_affine")
     return t
 
 
